@@ -64,3 +64,92 @@ void h_recall(void) {
     OBLIGATION(Q.m_stack_state == notified && Q.m_is_owner_recalled, "C20: recall_owner marks the suspended stack notified and raises the recall flag");
     VACUITY_END();
 }
+
+#ifdef SWITCH
+/* The stack-switch discipline.  A thread that leaves a stack records in thread_data::my_post_resume_action what has to be done once it runs on the other stack (register_waiter: the abandoned
+   stack goes back to waiting; cleanup: the coroutine it left is cached; notify: the owner of an outermost suspend is recalled and woken).  Whatever runs first on a stack after a switch - the
+   code behind the switch in task_dispatcher::resume, or the prologue of a fresh coroutine, co_local_wait_for_all - must perform that action exactly once before anything else: a dropped notify
+   means the owner is never recalled and the code after tbb::task::suspend never continues. */
+enum { pra_invalid, pra_register_waiter, pra_cleanup, pra_notify, pra_none };       /* order checked by spec.py against scheduler_common.h */
+typedef struct task { int d; } task;
+struct sp2 { bool m_is_owner_recalled; };
+#define sp sp2
+struct task_dispatcher; struct arena_slot { struct task_dispatcher *my_default_task_dispatcher; };
+struct thread_data { int my_post_resume_action; void *my_post_resume_arg; struct task_dispatcher *my_task_dispatcher; struct arena_slot *my_arena_slot; };
+struct task_dispatcher { struct thread_data *m_thread_data; struct sp2 *m_suspend_point; };
+static struct thread_data TD; static struct arena_slot SLOT; static struct task_dispatcher ME, OTHER, DEFLT; static struct sp2 SP_ME, SP_OTHER, SP_PENDING;
+int g_rewait, g_unref, g_cache, g_recall, g_wake, g_fin, g_detach, g_attach, g_switch, g_polls; void *g_rewait_arg, *g_cache_arg, *g_recall_arg, *g_wake_arg; int g_pending0; void *g_arg0;
+static void STUB_resume_context_notify(void *a) { g_rewait++; g_rewait_arg = a; }
+static void STUB_arena_unref_external(struct thread_data *td) { g_unref++; }
+static void STUB_co_cache_push(struct thread_data *td, struct task_dispatcher *d) { g_cache++; g_cache_arg = d; }
+static void STUB_sp_recall_owner(struct sp2 *s) { __CPROVER_assert(g_wake == 0, "C20.switch: the owner is recalled before its waiters are woken"); g_recall++; g_recall_arg = s; }
+static void STUB_notify_waiters_of(struct thread_data *td, struct sp2 *s) { g_wake++; g_wake_arg = s; }
+static void STUB_sp_finilize_resume(struct sp2 *s) { __CPROVER_assert(g_recall + g_cache + g_rewait == 0, "C20.switch: the hand-shake with the stack that was left (finilize_resume) comes before the post-resume action"); g_fin++; }
+static void STUB_detach_task_dispatcher(struct thread_data *td) { g_detach++; td->my_task_dispatcher = NULL; }
+static void STUB_attach_task_dispatcher(struct thread_data *td, struct task_dispatcher *d) { __CPROVER_assert(g_detach == g_attach + 1, "C20.switch: detach, then attach"); g_attach++; td->my_task_dispatcher = d; }
+static void arrive_with_pending(struct task_dispatcher *d) {       /* somebody switched (back) to stack d and left an arbitrary pending action */
+    d->m_thread_data = &TD; TD.my_task_dispatcher = d; int k = nondet_int(); __CPROVER_assume(k == pra_register_waiter || k == pra_cleanup || k == pra_notify || k == pra_none);
+    TD.my_post_resume_action = g_pending0 = k; TD.my_post_resume_arg = g_arg0 = (k == pra_none ? NULL : (k == pra_notify ? (void *)&SP_PENDING : (k == pra_cleanup ? (void *)&OTHER : (void *)&g_polls)));
+    g_rewait = g_unref = g_cache = g_recall = g_wake = 0;
+}
+#define ACTION_DONE_ONCE (TD.my_post_resume_action == pra_none && TD.my_post_resume_arg == NULL \
+   && g_rewait == (g_pending0 == pra_register_waiter) && (g_pending0 != pra_register_waiter || g_rewait_arg == g_arg0) \
+   && g_unref == (g_pending0 == pra_cleanup) && g_cache == (g_pending0 == pra_cleanup) && (g_pending0 != pra_cleanup || g_cache_arg == g_arg0) \
+   && g_recall == (g_pending0 == pra_notify) && g_wake == (g_pending0 == pra_notify) && (g_pending0 != pra_notify || (g_recall_arg == g_arg0 && g_wake_arg == g_arg0)))
+static void STUB_coroutine_switch(struct task_dispatcher *self, struct task_dispatcher *target) {
+    __CPROVER_assert(TD.my_task_dispatcher == target && g_attach == 1, "C20.switch: the thread is attached to the target dispatcher before the stacks are switched");
+    g_switch++; if (nondet_bool()) { self->m_thread_data = NULL; return; }     /* this stack is never continued with a thread attached (abandoned coroutine) */
+    arrive_with_pending(self);
+}
+void td_do_post_resume_action(struct task_dispatcher *self);
+bool td_resume(struct task_dispatcher *self, struct task_dispatcher *target);
+static task RT;
+static task *STUB_local_wait_for_all(struct task_dispatcher *self) {
+    __CPROVER_assert(TD.my_post_resume_action == pra_none, "C20.forgotten: a stack that has just been entered performs the post-resume action the previous stack left behind BEFORE it starts dispatching - otherwise an owner waiting to be recalled (notify) is never woken and the suspended code never continues");
+    g_polls = 1; return &RT;
+}
+static bool STUB_switch_to_target_of(struct task_dispatcher *self, task *t) {      /* task_dispatcher::resume(target) by its contract (job switch.resume) */
+    __CPROVER_assert(TD.my_post_resume_action == pra_cleanup && TD.my_post_resume_arg == self, "C20.switch: a coroutine that hands its thread on asks for ITS OWN caching");
+    if (nondet_bool()) return false; arrive_with_pending(self); td_do_post_resume_action(self); return true;
+}
+static struct sp2 *STUB_get_suspend_point(struct task_dispatcher *self) { return self->m_suspend_point; }
+int g_suspends;
+static void STUB_internal_suspend(struct task_dispatcher *self) { __CPROVER_assert(TD.my_post_resume_action == pra_notify && TD.my_post_resume_arg == self->m_suspend_point, "C20.switch: an outermost level that ends on a foreign stack leaves asking for the recall of THIS stack's owner"); g_suspends++; TD.my_post_resume_action = pra_none; TD.my_post_resume_arg = NULL; }
+static bool STUB_inbox_is_idle(struct task_dispatcher *self) { return nondet_bool(); }
+static void STUB_inbox_set_idle_false(struct task_dispatcher *self) {}
+#define LOOP_colw_1 __CPROVER_assigns(resume_task, TD, ME.m_thread_data, g_polls, g_pending0, g_arg0, g_rewait, g_unref, g_cache, g_recall, g_wake, g_rewait_arg, g_cache_arg, g_recall_arg, g_wake_arg) \
+  __CPROVER_loop_invariant(TD.my_post_resume_action == pra_none && TD.my_post_resume_arg == NULL && ME.m_thread_data == &TD && TD.my_task_dispatcher == &ME)
+#include "switch.inc"
+static void world(void) { SLOT.my_default_task_dispatcher = &DEFLT; TD.my_arena_slot = &SLOT; ME.m_suspend_point = &SP_ME; OTHER.m_suspend_point = &SP_OTHER; DEFLT.m_suspend_point = &SP_OTHER;
+    g_fin = g_detach = g_attach = g_switch = g_polls = g_suspends = 0; }
+void h_post_action(void) {
+    world(); arrive_with_pending(&ME);
+    td_do_post_resume_action(&ME);
+    OBLIGATION(ACTION_DONE_ONCE, "C20.switch: do_post_resume_action performs exactly the pending action, once, on its own argument (waiter re-registered | coroutine unreferenced and cached | owner recalled then woken), and clears it");
+    VACUITY_END();
+}
+void h_prologue(void) {
+    world(); arrive_with_pending(&ME); int first = g_pending0; void *arg = g_arg0;
+    td_co_local_wait_for_all(&ME);
+    OBLIGATION(g_fin == 1, "C20.switch: the coroutine prologue completes the hand-shake with the stack that was left exactly once");
+    VACUITY_END();
+}
+void h_td_resume(void) {
+    world(); struct task_dispatcher *self = nondet_bool() ? &ME : &DEFLT; self->m_thread_data = &TD; TD.my_task_dispatcher = self; TD.my_post_resume_action = nondet_int(); TD.my_post_resume_arg = nondet_ptr();
+    int act0 = TD.my_post_resume_action; void *arg0 = TD.my_post_resume_arg; SP_ME.m_is_owner_recalled = nondet_bool(); SP_OTHER.m_is_owner_recalled = nondet_bool(); bool rme = SP_ME.m_is_owner_recalled, rot = SP_OTHER.m_is_owner_recalled;
+    bool r = td_resume(self, &OTHER);
+    OBLIGATION(g_switch == 1 && g_detach == 1 && g_attach == 1, "C20.switch: resume switches stacks exactly once, with the thread re-attached to the target first");
+    if (self->m_thread_data == NULL) OBLIGATION(!r && g_rewait + g_unref + g_cache + g_recall + g_wake == 0 && SP_ME.m_is_owner_recalled == rme && SP_OTHER.m_is_owner_recalled == rot, "C20.switch: a stack that is not continued touches nothing");
+    else {
+        OBLIGATION(r && ACTION_DONE_ONCE, "C20.forgotten: when a stack is continued the post-resume action left by the previous stack is performed exactly once, first thing");
+        OBLIGATION(self == &DEFLT ? !SP_OTHER.m_is_owner_recalled : (SP_ME.m_is_owner_recalled == rme && SP_OTHER.m_is_owner_recalled == rot), "C20.switch: the recall flag is cleared exactly when the thread is back on its own default stack");
+    }
+    VACUITY_END();
+}
+void h_recall_point(void) {
+    world(); struct task_dispatcher *self = nondet_bool() ? &ME : &DEFLT; self->m_thread_data = &TD; TD.my_task_dispatcher = self; TD.my_post_resume_action = pra_none; TD.my_post_resume_arg = NULL; SP_ME.m_is_owner_recalled = false; SP_OTHER.m_is_owner_recalled = false;
+    td_recall_point(self);
+    OBLIGATION(g_suspends == (self != &DEFLT), "C20.switch: at the end of an outermost level, a thread that is on a foreign stack leaves it (asking for the recall of its owner); on its own default stack it just returns");
+    VACUITY_END();
+}
+#endif
